@@ -191,6 +191,10 @@ def check(ck):
     for (n, c) in sync:
         sync_sigs[(dump(c.func), tuple(dump(a) for a in c.args))] = n
     for (n, c) in enq:
+        recv = prov.origin(g, n, c.func.value) if isinstance(c.func, ast.Attribute) else None
+        ck.require(recv is not None and q.self_attr(recv, "__notification_pool"), "C04.4", "%s: enqueue on the notification pool" % where,
+                   "self.__notification_pool.enqueue(...)", "the notification is queued on %s, not on the notification pool" % (prov.show(recv) if recv else "?"),
+                   q.loc(fi, n))
         if not c.args:
             ck.bad("C04.4", "%s: enqueue without callee" % where, "enqueue() has no callee argument", q.loc(fi, n))
             continue
